@@ -22,7 +22,7 @@ const char *mc_id = "C09";
 const char *mc_rule = "DFS: all section/option trees up to depth D / fan-out F (sibling names distinct by default, up to B label deviations over names {a,b,ab,a1,a_b,'a b'} "
                       "permitted by the name flags and values {x, empty, 'x y', quoted with escaped quote, quoted with blanks+delimiters, f#g, quoted \"q\"}) "
                       "x 9 format strings (the 5 ctest formats, the default, 3 section styles) x decoration masks (indent, trailing blanks, blank lines, comment lines, trailing comments, "
-                      "inner padding, line layout, no final newline, one item per line), plus small trees holding one value of length 240..260 / 65530..65540 / 131077; "
+                      "inner padding, line layout, no final newline, one item per line, decorations on every other line only), plus small trees holding one value of length 240..260 / 65530..65540 / 131077; "
                       "real mpt_parse_node vs generating tree and vs the undecorated parse; nontrivial = distinct (tree,format,mask) documents with a non-empty mask "
                       "whose tree has at least one section containing a child, or which hold a value of >= 250 bytes";
 
@@ -162,8 +162,10 @@ static Parsed real_parse(Run &r, const Fmt &f, const std::string &doc)
 }
 
 // ------------------------------------------------------------------ writer
-enum { INDENT = 1, TRAIL = 2, BLANK = 4, COMLINE = 8, TRAILCOM = 16, PAD = 32, LAYOUT = 64, NOEOL = 128, NEWLINES = 256 };
-static const char *bitname[] = { "indent", "trailing-blanks", "blank-lines", "comment-lines", "trailing-comments", "padding", "layout", "no-final-newline", "item-per-line" };
+enum { INDENT = 1, TRAIL = 2, BLANK = 4, COMLINE = 8, TRAILCOM = 16, PAD = 32, LAYOUT = 64, NOEOL = 128, NEWLINES = 256, ALT = 512 };
+static const unsigned PERLINE = INDENT | TRAIL | BLANK | COMLINE | TRAILCOM | PAD;
+static const int NBITN = 10;
+static const char *bitname[] = { "indent", "trailing-blanks", "blank-lines", "comment-lines", "trailing-comments", "padding", "layout", "no-final-newline", "item-per-line", "only-every-other-line" };
 static int nbits(const Fmt &f) { return f.oend ? 9 : 8; }
 
 struct Line { int kind; int depth; const TN *n; bool joined; };   // kind 0 option, 1 open, 2 close
@@ -194,9 +196,13 @@ static std::string render(const Fmt &f, const std::vector<TN> &tree, unsigned ma
 	const bool oneline = f.oend && !(mask & NEWLINES);
 	const size_t ncom = strlen(f.com);
 	static const char *ctext = " c = {[x]}; \"q' `";
-	std::string d, pad = (mask & PAD) ? " " : "";
+	std::string d;
+	const unsigned docmask = mask;
 	for (size_t i = 0; i < lines.size(); ++i) {
 		const Line &l = lines[i];
+		// ALT: per-line decorations on every other line only (decorated and bare lines mixed in one text)
+		const unsigned mask = ((docmask & ALT) && (i % 2)) ? (docmask & ~PERLINE) : docmask;
+		const char *pad = (mask & PAD) ? " " : "";
 		const char com = f.com[i % ncom];
 		bool next_joined = i + 1 < lines.size() && lines[i + 1].joined;
 		if (!l.joined) {
@@ -217,6 +223,7 @@ static std::string render(const Fmt &f, const std::vector<TN> &tree, unsigned ma
 					if (mask & TRAIL) d += "  ";
 					d += '\n';
 					if (mask & BLANK) d += "\n";
+					if (mask & COMLINE) { d += com; d += ctext; d += '\n'; }
 					if (mask & INDENT) d += "\t";
 				} else d += pad;
 				d += f.sstart;
@@ -343,18 +350,26 @@ void mc_jobs(Tier t, std::vector<std::string> &jobs)
 		add_tree_jobs(jobs, 3, 2, 0, 7, "few", 1);
 	} else {
 		for (int i = 0; i < NFMT; ++i) for (unsigned k = 0; k < 4; ++k) jobs.push_back(fmt("len:%s:thorough:%u/4", fmts[i].id, k));
-		add_tree_jobs(jobs, 2, 3, 1, 7, "min", 4);
+		add_tree_jobs(jobs, 2, 2, 2, 7, "fewalt", 4);
 		add_tree_jobs(jobs, 3, 2, 0, 7, "all", 2);
-		add_tree_jobs(jobs, 2, 2, 2, 7, "few", 2);
+		add_tree_jobs(jobs, 2, 3, 0, 7, "all", 2);
 		add_tree_jobs(jobs, 2, 2, 1, 7, "all", 1);
+		add_tree_jobs(jobs, 2, 3, 1, 7, "two", 1);
 	}
 }
 static std::vector<unsigned> masks_for(const Fmt &f, const std::string &set)
 {
 	std::vector<unsigned> m; unsigned n = nbits(f), all = (1u << n) - 1;
 	if (set == "all") { for (unsigned i = 0; i <= all; ++i) m.push_back(i); return m; }
-	// "few": at most two decorations, and all / all but one;  "min": at most one decoration, and all
-	for (unsigned i = 0; i <= all; ++i) { int pc = __builtin_popcount(i); if (set == "min" ? (pc <= 1 || pc == (int) n) : (pc <= 2 || pc >= (int) n - 1)) m.push_back(i); }
+	// "few": at most two decorations, and all / all but one;  "min": at most one decoration, and all;  "two": none and all;
+	// "fewalt": "few" plus the same masks applied to every other line only
+	for (unsigned i = 0; i <= all; ++i) {
+		int pc = __builtin_popcount(i);
+		bool take = set == "min" ? (pc <= 1 || pc == (int) n) : (set == "two" ? (pc == 0 || pc == (int) n) : (pc <= 2 || pc >= (int) n - 1));
+		if (!take) continue;
+		m.push_back(i);
+		if (set == "fewalt" && (i & PERLINE)) m.push_back(i | ALT);
+	}
 	return m;
 }
 static const size_t len_quick[] = { 249, 250, 254, 255, 256, 65535, 65536 };
@@ -370,11 +385,11 @@ static std::vector<size_t> lens_for(const std::string &set)
 }
 
 // ------------------------------------------------------------------ one case
-enum Cnt { C_OK, C_UNDECO, C_NESTED, C_DEPTH3, C_QUOTED, C_ESCQ, C_EMPTYSECT, C_EMPTYVAL, C_DUP, C_NOTCONSUMED, C_TREES, C_NONTRIVIAL,
-           C_LEN0, C_LEN1, C_LEN2, C_LEN3, C_INLINE, C_BUFFER, C_BIT0, C_NCNT = C_BIT0 + 9 };
-static const char *cntname[] = { "ok", "undecorated", "tree:nested", "tree:depth3", "value:quoted", "value:escaped-quote-kept", "tree:empty-section", "value:empty",
-           "tree:duplicate-sibling-names", "input-not-fully-consumed(not flagged)", "trees", "nontrivial",
-           "value:short", "value:len250-254", "value:len255-65535", "value:len>=65536", "", "" };
+enum Cnt { C_OK, C_CASES, C_UNDECO, C_NESTED, C_DEPTH3, C_QUOTED, C_ESCQ, C_EMPTYSECT, C_EMPTYVAL, C_DUP, C_BLANKNAME, C_NOTCONSUMED, C_TREES, C_NONTRIVIAL,
+           C_LEN0, C_LEN1, C_LEN2, C_LEN3, C_BIT0, C_NCNT = C_BIT0 + 10 };
+static const char *cntname[] = { "held", "cases", "undecorated", "tree:nested", "tree:depth3", "value:quoted", "value:escaped-quote-kept", "tree:empty-section", "value:empty",
+           "tree:duplicate-sibling-names", "name:with-blank", "input-not-fully-consumed(not flagged)", "trees", "nontrivial",
+           "value:short", "value:len250-254", "value:len255-65535", "value:len>=65536" };
 static uint64_t g_cnt[C_NCNT];
 // per-tree cache: everything that does not depend on the decoration mask
 static struct TreeCache { bool valid; std::string key, want, sigbase, plain_canon; int plain_ret; Feat ft; int lencl; } g_tc;
@@ -401,7 +416,7 @@ static void check_case(Run &r, const Fmt &f, const std::vector<TN> &tree, unsign
 	std::string doc = render(f, tree, mask);
 	if (r.replaying) {
 		r.note("format %s (\"%s\", flags %s)  mask %#x", f.id, f.fmt ? f.fmt : "(default)", f.flags ? f.flags : "(all)", mask);
-		for (int b = 0; b < 9; ++b) if (mask & (1u << b)) r.note("  decoration: %s", bitname[b]);
+		for (int b = 0; b < NBITN; ++b) if (mask & (1u << b)) r.note("  decoration: %s", bitname[b]);
 		r.note("document (%zu bytes): %s", doc.size(), show(doc).c_str());
 		r.note("generating tree: %s", tc.want.c_str());
 	}
@@ -409,27 +424,28 @@ static void check_case(Run &r, const Fmt &f, const std::vector<TN> &tree, unsign
 	Parsed p = real_parse(r, f, doc); ++r.transitions;
 	if (r.replaying) r.note("parse returned %d (line %zu, %zu of %zu bytes consumed): %s", p.ret, p.line, p.consumed, doc.size(), p.canon.c_str());
 	bool bad = false;
+	bool plain_ok = tc.plain_ret >= 0 && tc.plain_canon == tc.want;
+	bool this_ok = p.ret >= 0 && p.canon == tc.want && p.linkerr.empty();
 	if (p.asan) { r.violation(tc.sigbase + "memory", describe(f, mask, doc) + ": AddressSanitizer report while parsing / releasing the tree"); bad = true; }
+	else if (this_ok) { /* decorated and undecorated text both have to give the generating tree; a wrong undecorated parse is reported by the mask-0 case */ }
+	else if (mask && plain_ok) {
+		r.violation(tc.sigbase + "decoration-changes-result", describe(f, mask, doc) + (p.ret < 0 ? fmt(": decorated parse returned %d at line %zu", p.ret, p.line) : ": decorated parse [" + p.canon + "]" + (p.linkerr.empty() ? "" : " (" + p.linkerr + ")"))
+		            + ", undecorated parse is the expected [" + tc.want + "]"); bad = true;
+	}
 	else if (p.ret < 0) { r.violation(tc.sigbase + "refused", describe(f, mask, doc) + fmt(": mpt_parse_node returned %d at line %zu", p.ret, p.line)); bad = true; }
 	else if (p.canon != tc.want) { r.violation(tc.sigbase + "wrong-tree", describe(f, mask, doc) + ": parsed [" + p.canon + "] expected [" + tc.want + "]"); bad = true; }
-	else if (!p.linkerr.empty()) { r.violation(tc.sigbase + "wrong-tree", describe(f, mask, doc) + ": " + p.linkerr); bad = true; }
-	if (mask && !p.asan) {
-		if (tc.plain_ret >= 0 && p.ret >= 0 && p.canon != tc.plain_canon) {
-			r.violation(tc.sigbase + "decoration-changes-result", describe(f, mask, doc) + ": decorated parse [" + p.canon + "] differs from undecorated parse [" + tc.plain_canon + "]"); bad = true;
-		} else if ((tc.plain_ret >= 0) != (p.ret >= 0)) {
-			r.violation(tc.sigbase + "decoration-changes-result", describe(f, mask, doc) + fmt(": decorated parse returned %d, undecorated %d", p.ret, tc.plain_ret)); bad = true;
-		}
-	}
-	if (bad) return;
-	// coverage counters
-	++g_cnt[C_OK];
-	if (mask) { for (int b = 0; b < 9; ++b) if (mask & (1u << b)) ++g_cnt[C_BIT0 + b]; }
+	else { r.violation(tc.sigbase + "wrong-tree", describe(f, mask, doc) + ": " + p.linkerr); bad = true; }
+	// coverage counters: what was enumerated (independent of the verdict), plus the number of cases that held
+	++g_cnt[C_CASES];
+	if (mask) { for (int b = 0; b < NBITN; ++b) if (mask & (1u << b)) ++g_cnt[C_BIT0 + b]; }
 	else ++g_cnt[C_UNDECO];
 	g_cnt[C_NESTED] += ft.nested; g_cnt[C_DEPTH3] += ft.depth3; g_cnt[C_QUOTED] += ft.quoted; g_cnt[C_ESCQ] += ft.escq;
-	g_cnt[C_EMPTYSECT] += ft.emptysect; g_cnt[C_EMPTYVAL] += ft.emptyval; g_cnt[C_DUP] += ft.dup;
+	g_cnt[C_EMPTYSECT] += ft.emptysect; g_cnt[C_EMPTYVAL] += ft.emptyval; g_cnt[C_DUP] += ft.dup; g_cnt[C_BLANKNAME] += ft.blankname;
 	++g_cnt[C_LEN0 + tc.lencl];
-	if (p.consumed != doc.size()) ++g_cnt[C_NOTCONSUMED];
 	if (mask && (ft.nested || ft.maxlen >= 250)) ++g_cnt[C_NONTRIVIAL];
+	if (bad) return;
+	++g_cnt[C_OK];
+	if (p.consumed != doc.size()) ++g_cnt[C_NOTCONSUMED];
 }
 
 struct JobCtx { Job j; std::vector<const char *> sn, on; std::vector<int> vals; std::vector<unsigned> masks, masks_big; std::vector<size_t> lens; };
@@ -440,7 +456,7 @@ static void setup(JobCtx &jc, const std::string &job)
 	for (const char *n : NAMES) { if (name_ok(f, true, n)) jc.sn.push_back(n); if (name_ok(f, false, n)) jc.on.push_back(n); }
 	for (int v = 0; v < jc.j.NV; ++v) jc.vals.push_back(v);
 	if (jc.j.family == "tree") jc.masks = masks_for(f, jc.j.maskset);
-	else { jc.masks = masks_for(f, jc.j.maskset == "quick" ? "few" : "all"); jc.masks_big = masks_for(f, jc.j.maskset == "quick" ? "min" : "few"); jc.lens = lens_for(jc.j.maskset); }
+	else { jc.masks = masks_for(f, jc.j.maskset == "quick" ? "fewalt" : "all"); jc.masks_big = masks_for(f, jc.j.maskset == "quick" ? "min" : "few"); jc.lens = lens_for(jc.j.maskset); }
 	g_tc.valid = false;
 }
 static void quotes_key(const std::vector<TN> &l, std::string &key) { for (const TN &n : l) { key += (char) ('0' + n.quote); quotes_key(n.kids, key); } }
@@ -489,11 +505,13 @@ void mc_explore(Run &r, const std::string &job)
 {
 	JobCtx jc; setup(jc, job);
 	memset(g_cnt, 0, sizeof g_cnt);
-	r.require("nontrivial"); r.require("trees");
+	for (int i = 0; i < C_BIT0; ++i) if (i != C_NOTCONSUMED && i != C_OK) r.require(cntname[i]);
+	for (int b = 0; b < NBITN; ++b) r.require(std::string("deco:") + bitname[b]);
+	for (int i = 0; i < NFMT; ++i) r.require(std::string("cases:") + fmts[i].id);
 	dfs(r, [&](Ctx &x) { body(r, jc, x); });
 	const Fmt &f = fmts[jc.j.fmt];
-	for (int i = 0; i < C_BIT0; ++i) if (g_cnt[i] && cntname[i][0]) r.count(i == C_OK ? std::string("ok:") + f.id : std::string(cntname[i]), g_cnt[i]);
-	for (int b = 0; b < 9; ++b) if (g_cnt[C_BIT0 + b]) r.count(std::string("deco:") + bitname[b], g_cnt[C_BIT0 + b]);
+	for (int i = 0; i < C_BIT0; ++i) if (g_cnt[i]) { r.count(cntname[i], g_cnt[i]); if (i == C_CASES) r.count(std::string("cases:") + f.id, g_cnt[i]); }
+	for (int b = 0; b < NBITN; ++b) if (g_cnt[C_BIT0 + b]) r.count(std::string("deco:") + bitname[b], g_cnt[C_BIT0 + b]);
 }
 void mc_replay(Run &r, const std::string &job, const Vec &v)
 {
